@@ -145,7 +145,7 @@ class Real:
     def all_sink_bytes(self):
         """(label, bytes) of everything written outside the key store"""
         out = []
-        for root in (self.logs, self.events, self.status, self.sd + "/keys"):
+        for root in (self.logs, self.events, self.status, self.sd + "/keys", self.sd + "/tmp"):
             for f in sorted(glob.glob(root + "/**", recursive=True)):
                 if os.path.isfile(f):
                     try:
@@ -220,8 +220,10 @@ def gen_history(rng, tier):
                     cur = g
             elif status[0] == "K":
                 cur = None
-        elif r < 75:
+        elif r < 70:
             steps.append(("request",))
+        elif r < 75:
+            steps.append(("abort",))
         elif r < 85:
             steps.append(("provq",))
         elif r < 92:
@@ -286,6 +288,8 @@ def run(chk):
 
 
 def step_line(step, guids):
+    if step[0] == "abort":
+        return "sec request"        # clients that hang up mid-request: the model has nothing to add to a request
     if step[0] != "poll":
         return "sec " + step[0]
     _, status, acquire, store_ok, attest = step
@@ -399,6 +403,22 @@ def run_history(chk, binp, steps, salt, strace=False):
                     chk.count("signed_requests")
                     if not re.match(r"^Azure-HMAC-SHA256 \S+ [0-9a-f]{64}$", a.decode("latin-1")):
                         chk.disagreement("authorization-header-shape", dict(desc, at=i), "scheme guid mac", a.decode("latin-1"))
+            elif kind == "abort":
+                # clients hang up while their requests wait for the (slowed) actors: whatever the agent logs about the undeliverable
+                # replies goes through the same sinks
+                real.st.ctl("slowall 3000")
+                try:
+                    for j in range(10):
+                        c = real.st.connect(audit=(0, real.caller, 1, "168.63.129.16", 80))
+                        c.send(e2e.build_request("GET", "/machine?comp=goalstate&abort=%d" % j, [(b"Host", b"168.63.129.16")]))
+                        time.sleep(0.004 * (j % 10))
+                        c.close(rst=True)
+                    time.sleep(0.25)
+                finally:
+                    real.st.ctl("khook off")
+                time.sleep(0.1)
+                real.st.hosts.take()
+                observe(real, 0.05)           # not compared: how far each aborted request got is timing
             elif kind == "provq":
                 c = e2e.ClientConn(0, 5.0)
                 resp = c.request(e2e.build_request("GET", "/provision", [(b"Host", b"127.0.0.1"), (b"Metadata", b"true")]), b"GET", 5.0)
